@@ -179,7 +179,7 @@ package internal
 //@   requires wf: p != nil && p.log != nil && p.configs != nil && p.caWatcher != nil && !held(addr(p.mu))
 //@   invariant src: TlsPoolSrc(p)
 //@   invariant distinct: TlsPoolDistinct(p)
-//@   private mapof(p.configs), ghost $held[addr(p.mu)], above(watermark())
+//@   private mapof(p.configs), ghost $held[addr(p.mu)], ghost Watchers, above(watermark())
 
 // lock discipline (C16)
 //@ guarded field tlsConfigPool.configs by addr(this.mu)
